@@ -68,10 +68,65 @@ ACC_LADDER = [0.3, 0.6, 0.9, 0.99, 1.01, 1.1, 1.5, 3.0]
 REACH_LADDER = [0.9, 0.99, 1.01, 1.5]
 
 
+def _preload():
+    import sasmodels.sesans, sasmodels.direct_model, sasmodels.data  # noqa - imported, never used
+
+
 def setup(ctx):
     bad = build.prebuild(ctx, ["sphere"])
     if bad:
         raise HarnessError("models failed to build: %r" % bad)
+    # pristine process for the history cases: every sequence of transforms starts from never-used module state
+    from .. import zygote
+    zygote.start(ctx, "c19", _preload)
+
+
+def _hist_one(arg):
+    """(fresh process) build the transforms of a sequence in order; report the LAST one's observable behaviour"""
+    xi, seq, s = arg
+    T = None
+    for lam, acc in seq:
+        T = make_transform(xi, lam, acc)
+    q = np.asarray(T.q_calc, float)
+    vals = np.asarray(T.apply(gauss(q, s)), float)
+    return [len(q), float(q[0]).hex(), float(q[-1]).hex()] + [float(v).hex() for v in vals]
+
+
+def run_hist(case, ctx, r):
+    """
+    The transform is a function of (spin-echo lengths, wavelength, acceptance): after ANY sequence of other
+    transforms built in the same process it must behave bit-for-bit as when it is the first one built.
+    All ordered sequences (length 2; thorough: 3) over the (wavelength, acceptance) alphabet for one xi grid.
+    """
+    import itertools
+    from .. import zygote
+    xi = [float(v) for v in xi_grid(case["n"], case["grid"], case["range"])]
+    s = case["s"]
+    configs = [[lam, acc] for lam in LAMBDAS for acc in ACCEPT]
+    ref = {}
+    for cfg in configs:
+        out = zygote.call(ctx, "c19", "mc.props.c19:_hist_one", [xi, [cfg], s])
+        if "value" not in out:
+            r.fail("building SesansTransform(xi=%s, wavelength=%r, acceptance=%r) first in a fresh process failed: %s"
+                   % (xi, cfg[0], cfg[1], out), {"clause": "history", "what": "raises"})
+            return
+        ref[tuple(cfg)] = out["value"]
+    for depth in range(2, case["depth"] + 1):
+        for seq in itertools.product(configs, repeat=depth):
+            if depth == 3 and seq[0] == seq[1]:
+                continue
+            out = zygote.call(ctx, "c19", "mc.props.c19:_hist_one", [xi, [list(c) for c in seq], s])
+            got = out.get("value")
+            want = ref[tuple(seq[-1])]
+            if got != want:
+                def dec(v):
+                    return None if v is None else [float.fromhex(x) for x in v[3:6]]
+                r.fail("SESANS transform depends on the transforms built before it: xi=%s, sequence (wavelength, acceptance)=%s; "
+                       "the last transform gives G=%s..., built first in a fresh process it gives %s... (%s)"
+                       % (xi, list(seq), dec(got), dec(want), "" if got else out),
+                       {"clause": "history", "what": "differs"}, branches=["history"])
+            else:
+                r.ok(nt=seq[-1] != seq[0], outcome="hist:same", trans=depth, branches=["history"])
 
 
 def _svals(ctx):
@@ -94,6 +149,9 @@ def cases(ctx):
     for lam in LAMBDAS:
         out.append({"kind": "direct", "lam": lam, "acc": math.pi / 2, "radius": 150.0 * (1.0 if ctx.seed == 0 else ctx.factor(1))})
     out.append({"kind": "gxi", "radius": 150.0 * (1.0 if ctx.seed == 0 else ctx.factor(1))})
+    # history independence of the transform itself (module-level state): small grids, all ordered config sequences
+    for n, kind, rng, s in ((5, "linear", RANGES[0], 200.0), (1, "linear", RANGES[1], 600.0), (8, "log", RANGES[1], 2000.0)):
+        out.append({"kind": "hist", "n": n, "grid": kind, "range": rng, "s": s, "depth": 2 if ctx.quick else 3})
     return out
 
 
@@ -410,6 +468,8 @@ def run_case(case, ctx):
         run_direct(case, ctx, r)
     elif kind == "gxi":
         run_gxi(case, ctx, r)
+    elif kind == "hist":
+        run_hist(case, ctx, r)
     else:
         raise HarnessError("unknown case kind %r" % kind)
     return r
@@ -425,5 +485,6 @@ def finish(ctx, report):
     report.require("single-point", 20, "single spin-echo length versus the same point in a larger set")
     report.require("direct", 3, "DirectModel path")
     report.require("gxi", 1, "Gxi path")
+    report.require("history", 100, "sequences of transforms in one process")
     for n in BOUNDS[ctx.tier]["n"]:
         report.require("n=%d" % n, 9, "every grid size explored")
